@@ -43,6 +43,15 @@ func addFailed(out *cq.Out, r *bRun, replay map[string]interface{}) bool {
 	return true
 }
 
+type keptProof struct {
+	proof       *balloon.MembershipProof
+	d           []byte
+	hist, hyper hashing.Digest
+	ei          int
+	qv          uint64
+	n           int
+}
+
 func newBRun() *bRun {
 	store := bplus.NewBPlusTreeStore()
 	b, err := balloon.NewBalloon(store, hashing.NewSha256Hasher)
@@ -407,6 +416,7 @@ func balloonCmd(out *cq.Out, seed uint64, tier string) {
 		r := newBRun()
 		var steps []string
 		var plan []string
+		var kept []keptProof
 		nq, nv := 0, 0
 		for len(r.events) < n {
 			// ---- one call
@@ -495,6 +505,9 @@ func balloonCmd(out *cq.Out, seed uint64, tier string) {
 						okv, _ = wireVerify(o.proof, nil, d, r.snaps[qv].HistoryDigest, r.snaps[cur].HyperDigest)
 					}
 					steps = append(steps, fmt.Sprintf("SVerify %s %s [] %s %s %s %s", cq.Bytes(d), optN(q), cq.Bytes(d), cq.N(qv), cq.N(cur), cq.N(uint64(map[int]int{-1: 1, 0: 0, 1: 1, 2: 1}[okv]))))
+					if okv == 0 && len(kept) < 12 && rng.Intn(3) == 0 {
+						kept = append(kept, keptProof{o.proof, append([]byte{}, d...), r.snaps[qv].HistoryDigest, r.snaps[cur].HyperDigest, ei, qv, len(r.events)})
+					}
 					if o.class != 0 || !o.exists || o.actual >= uint64(len(r.events)) || !bytes.Equal(r.events[o.actual], d) || o.actual > qv || okv != 0 {
 						out.Violate("C01:membership", fmt.Sprintf("event (version %d, reported %d) queried at version %d of a %d-event log: class=%d exists=%v actual=%d verdict=%d", ei, rep, qv, len(r.events), o.class, o.exists, o.actual, okv),
 							map[string]interface{}{"case": ci, "seed": seed, "plan": strings.Join(plan, ","), "event_index": ei, "query": qv, "events": len(r.events)})
@@ -647,6 +660,15 @@ func balloonCmd(out *cq.Out, seed uint64, tier string) {
 						map[string]interface{}{"case": ci, "seed": seed, "s": s, "e": e})
 				}
 				steps = append(steps, fmt.Sprintf("SCons %s %s %s %s %s", cq.N(s), cq.N(e), cq.N(uint64(cls)), cq.Bytes(fp), cq.N(uint64(verdict))))
+			}
+		}
+		// ---- an answer that verified when it was given is a value: later insertions do not change it (a client may
+		// verify or forward it later)
+		for _, k := range kept {
+			if okv, _ := wireVerify(k.proof, nil, k.d, k.hist, k.hyper); okv != 0 {
+				out.Violate("C01:answer-changed-by-later-insertions", fmt.Sprintf("the answer for event %d at version %d, which verified when it was given (log of %d events), no longer verifies against the same snapshots after the log grew to %d events", k.ei, k.qv, k.n, len(r.events)),
+					map[string]interface{}{"case": ci, "seed": seed, "plan": strings.Join(plan, ","), "event_index": k.ei, "query": k.qv})
+				break
 			}
 		}
 		// ---- C01 under concurrent readers (queries take the balloon's read lock and run in parallel): at the final
